@@ -21,12 +21,11 @@ pub open spec fn commitment_hooks_unused<C: Ciphersuite>() -> bool {
     &&& forall|a: SigningPackage<C>, b: crate::round1::SigningNonces<C>, l: BindingFactorList<C>| #[trigger] C::spec_pre_commitment_sign(a, b, l) == Ok::<(SigningPackage<C>, crate::round1::SigningNonces<C>), Error<C>>((a, b))
     &&& forall|a: SigningPackage<C>, l: BindingFactorList<C>| #[trigger] C::spec_pre_commitment_aggregate(a, l) == Ok::<SigningPackage<C>, Error<C>>(a)
 }
-// ... and whose `pre_aggregate` hook keeps the signing package, the share map and the identifier set of the verifying shares (it may
-// replace the group key and the verifying shares themselves: Taproot negates them)
-pub open spec fn pre_aggregate_keeps_ids<C: Ciphersuite>() -> bool {
-    forall|a: SigningPackage<C>, b: BTreeMap<Identifier<C>, crate::round2::SignatureShare<C>>, p: PublicKeyPackage<C>| #![trigger C::spec_pre_aggregate(a, b, p)]
-        C::spec_pre_aggregate(a, b, p) is Ok ==> (C::spec_pre_aggregate(a, b, p)->Ok_0).0 == a && (C::spec_pre_aggregate(a, b, p)->Ok_0).1 == b
-            && (C::spec_pre_aggregate(a, b, p)->Ok_0).2.verifying_shares@.dom() == p.verifying_shares@.dom()
+// ... and for inputs on which the `pre_aggregate` hook keeps the signing package, the share map and the identifier set of the verifying
+// shares (it may replace the group key and the verifying shares themselves: Taproot negates them)
+pub open spec fn pre_aggregate_keeps_ids_at<C: Ciphersuite>(a: SigningPackage<C>, b: BTreeMap<Identifier<C>, crate::round2::SignatureShare<C>>, p: PublicKeyPackage<C>) -> bool {
+    C::spec_pre_aggregate(a, b, p) is Ok ==> (C::spec_pre_aggregate(a, b, p)->Ok_0).0 == a && (C::spec_pre_aggregate(a, b, p)->Ok_0).1 == b
+        && (C::spec_pre_aggregate(a, b, p)->Ok_0).2.verifying_shares@.dom() == p.verifying_shares@.dom()
 }
 
 // ---- RFC 9591 5.2 round two, with the hooks ----
